@@ -471,6 +471,42 @@ pub async fn run_coordinator_boundaries(ctx: &mut Ctx, w: &mut World) {
             ctx.stat("boundary_confirmation_retry");
         }
     }
+    // confirmation counts of transactions that live in SEALED segments: the count is looked up at
+    // the transaction's offsets in every segment, newest first; the same offset in a newer segment
+    // holds another record (first event) or the middle of one (second event)
+    {
+        let dir = tempfile::tempdir().unwrap();
+        let db = sierradb::database::DatabaseBuilder::new().segment_size_bytes(128 * 1024).total_buckets(1).bucket_ids_from_range(0..1)
+            .writer_threads(1).reader_threads(1).compression(false).open(dir.path()).expect("open database");
+        let pid = 0u16; let mut txs = Txs::new(pid);
+        let (a, b) = (txs.get(1), txs.get(2));
+        let (ida, idb) = (a.transaction_id(), b.transaction_id());
+        let ra = db.append_events(a).await; let rb = db.append_events(b).await;
+        let mut rolled = 0;
+        for t in 3..40u64 {
+            let big = txs.get_with_payload(t, 20_000);
+            if let Ok(r) = db.append_events(big).await { if r.offsets.first() == Some(&48) { rolled += 1; if rolled == 2 { break; } } }
+        }
+        if let (Ok(ra), Ok(rb)) = (ra, rb) {
+            for (name, id, offs, want) in [("first", ida, ra.offsets.clone(), 2u8), ("second", idb, rb.offsets.clone(), 3u8)] {
+                let r = sierradb_cluster::write::transaction::set_confirmations_with_retry(&db, pid, offs.clone(), id, want).await;
+                let log = world::read_log(&db, &txs).await;
+                let stored = log.iter().find(|x| x.1 == if name == "first" { 1 } else { 2 }).map(|x| x.2);
+                // what C11 needs: a reported success means the count IS stored (the acknowledgement follows it);
+                // a failure must leave the count unchanged.  (That the update FAILS for a sealed-segment
+                // transaction whose offset is not a record boundary of a newer segment is a defect outside
+                // the listed properties: the write is then not acknowledged. Counted, see DESIGN 10.2e.)
+                match (&r, stored) {
+                    (Ok(()), s) if s != Some(want) => ctx.oracle_fail(&format!("C11:confirmation-sealed {name}"), &format!("set_confirmations_with_retry reported success for the {name} transaction of a sealed segment (offsets {offs:?}) but the stored count is {s:?}, not {want}"), &["c10 setconf".to_string()]),
+                    (Err(_), s) if s != Some(0) => ctx.oracle_fail(&format!("C11:confirmation-sealed {name}"), &format!("set_confirmations_with_retry failed for the {name} transaction of a sealed segment but changed its stored count to {s:?}"), &["c10 setconf".to_string()]),
+                    (Err(_), _) => ctx.stat("boundary_confirmation_sealed_update_failed"),
+                    _ => ctx.stat("boundary_confirmation_sealed_update_ok"),
+                }
+            }
+            ctx.stat("boundary_confirmation_sealed_segment");
+        }
+        db.shutdown().await;
+    }
     // the coordinator's quorum arithmetic for EVERY replication factor: `run` with no reachable
     // replica holds exactly one copy (its own), so it may acknowledge iff rf/2+1 <= 1, and the
     // quorum it reports must be rf/2+1 (compared with the model's `quorum`)
